@@ -257,6 +257,18 @@ class EzspRig:
         self.gw.modes = []
         return ev
 
+    async def advance(self, ms):
+        """let virtual time pass; timers that fall due on the way fire as recorded ticks"""
+        target = self.loop._vnow + ms / 1000.0
+        evs = []
+        while True:
+            when = self.next_timer()
+            if when is None or when > target + 1e-9:
+                break
+            evs.append(await self.tick())
+        self.loop._vnow = max(self.loop._vnow, target)
+        return evs
+
     async def cancel(self, c, modes=()):
         t = self.tasks.get(c)
         if t is None or t.done():
